@@ -294,6 +294,32 @@ class TN1:
         return _run(self)
 
 
+@labtech.task(cache=None, max_parallel=2)
+class TN2:
+    ident: int
+    tag: str
+    deps: Any = ()
+    opt: Any = None
+
+    def run(self):
+        return _run(self)
+
+
+@labtech.task(max_parallel=3)
+class TF:
+    """filter_context is not idempotent: applying it twice gives another context."""
+    ident: int
+    tag: str
+    deps: Any = ()
+    opt: Any = None
+
+    def filter_context(self, context):
+        return {'alpha': context.get('alpha'), 'depth': context.get('depth', 0) + 1}
+
+    def run(self):
+        return _run(self)
+
+
 @labtech.task(max_parallel=2)
 class TP:
     """post_init derives an attribute that run() uses; filter_context keeps a
@@ -354,7 +380,7 @@ def _late_types():
 
 
 TYPES = {
-    'TA': TA, 'TB': TB, 'TC': TC, 'TD': TD, 'TN': TN, 'TN1': TN1, 'TP': TP, 'TR': TR,
+    'TA': TA, 'TB': TB, 'TC': TC, 'TD': TD, 'TN': TN, 'TN1': TN1, 'TN2': TN2, 'TF': TF, 'TP': TP, 'TR': TR,
     'Node': Node, 'NodeX': NodeX,
 }
 
@@ -370,14 +396,14 @@ def get_type(name: str):
 TYPE_INFO = {
     # name: (max_parallel, cache kind)
     'TA': (None, 'pickle'), 'TB': (1, 'pickle'), 'TC': (2, 'pickle'), 'TD': (3, 'json'),
-    'TN': (None, None), 'TN1': (1, None), 'TP': (2, 'pickle'), 'TR': (None, 'pickle'),
+    'TN': (None, None), 'TN1': (1, None), 'TN2': (2, None), 'TF': (3, 'pickle'), 'TP': (2, 'pickle'), 'TR': (None, 'pickle'),
     'Node': (None, 'pickle'), 'NodeX': (None, 'pickle'), 'TA2': (None, 'pickle'),
 }
 
 TYPE_QUALNAME = {
     'TA': 'simlab.tasklib.TA', 'TB': 'simlab.tasklib.TB', 'TC': 'simlab.tasklib.TC',
     'TD': 'simlab.tasklib.TD', 'TN': 'simlab.tasklib.TN', 'TN1': 'simlab.tasklib.TN1',
-    'TP': 'simlab.tasklib.TP', 'TR': 'simlab.tasklib.TR', 'Node': 'simlab.tasklib.Node', 'NodeX': 'simlab.tasklib.NodeX',
+    'TP': 'simlab.tasklib.TP', 'TR': 'simlab.tasklib.TR', 'TN2': 'simlab.tasklib.TN2', 'TF': 'simlab.tasklib.TF', 'Node': 'simlab.tasklib.Node', 'NodeX': 'simlab.tasklib.NodeX',
     'TA2': 'simlab.tasklib2.TA',
 }
 
